@@ -178,6 +178,9 @@ var c12Toks = []c12Tok{
 	{"..", "..", lexer.Operator}, {".", ".", lexer.Operator}, {"?.", "?.", lexer.Operator}, {"?", "?", lexer.Operator}, {":", ":", lexer.Operator}, {",", ",", lexer.Operator}, {"#", "#", lexer.Operator},
 	{"(", "(", lexer.Bracket}, {")", ")", lexer.Bracket}, {"[", "[", lexer.Bracket}, {"]", "]", lexer.Bracket}, {"{", "{", lexer.Bracket}, {"}", "}", lexer.Bracket},
 	{"true", "true", lexer.Identifier}, {"nil", "nil", lexer.Identifier},
+	// identifiers that begin like the second word of `not in`, and strings that spell operators / brackets
+	{"inside", "inside", lexer.Identifier}, {"in_x", "in_x", lexer.Identifier}, {"int8", "int8", lexer.Identifier}, {"index", "index", lexer.Identifier},
+	{`"("`, "(", lexer.String}, {`'#'`, "#", lexer.String}, {`"."`, ".", lexer.String}, {`"not in"`, "not in", lexer.String},
 }
 
 var c12Seps = []string{"", " ", "  ", "\t", "\n", "\r\n", " \n ", "\n\n", " ", " \n"}
@@ -274,6 +277,11 @@ func ints(c *core.Case, k string) []int {
 	return out
 }
 
+var c12Prev struct {
+	toks, copy []lexer.Token
+	src        string
+}
+
 func judgeC12Pos(c *core.Case, cfg *core.Config) core.Verdict {
 	toks, seps := ints(c, "toks"), ints(c, "seps")
 	src, want, ok := c12Layout(c.Int("lead"), toks, seps)
@@ -284,6 +292,16 @@ func judgeC12Pos(c *core.Case, cfg *core.Config) core.Verdict {
 	}
 	c.Source = src
 	got, err := lexSafe(src)
+	// tokens handed out by an earlier Lex must not be affected by later calls
+	for i := range c12Prev.toks {
+		if c12Prev.toks[i] != c12Prev.copy[i] {
+			v.Violation = fmt.Sprintf("lexing %q altered token %d returned earlier for %q: it was %v, now %v", src, i, c12Prev.src, c12Prev.copy[i], c12Prev.toks[i])
+			return v
+		}
+	}
+	if err == nil {
+		c12Prev.toks, c12Prev.copy, c12Prev.src = got, append([]lexer.Token(nil), got...), src
+	}
 	if err != nil {
 		v.Violation = fmt.Sprintf("token sequence %q does not lex: %s", src, firstLine(err.Error()))
 		return v
